@@ -45,6 +45,8 @@ Viol(o) ==
   CbClauses(o) \cup
   (CASE o.fail = "none" /\ o.cb = "ok" ->
           (IF o.opt.sync /\ o.started /\ o.cbobs.called = 0 THEN {"ran-without-callback"} ELSE {})
+          \cup (IF ~o.started /\ o.marker THEN {"ran-although-start-returned-error"} ELSE {})
+          \cup (IF ~o.started /\ o.marker THEN NoChildLeft(o) ELSE {})
      [] o.fail = "none" /\ o.cb = "err" ->
           (IF o.started THEN {"started-despite-callback-error"} ELSE {})
           \cup (IF o.marker THEN {"ran-despite-callback-error"} ELSE {})
@@ -68,7 +70,8 @@ Drift(o) ==
 
 Setup(o) ==
   (IF o.setup # "" THEN {o.setup} ELSE {})
-  \cup (IF o.fail = "none" /\ o.cb = "ok" /\ (~o.started \/ ~o.report \/ ~o.marker) THEN {"plain launch of this configuration did not run the probe"} ELSE {})
+  \cup (IF o.fail = "none" /\ o.cb = "ok" /\ ((~o.started /\ ~o.marker) \/ (o.started /\ (~o.report \/ ~o.marker)))
+        THEN {"plain launch of this configuration did not run the probe"} ELSE {})
   \cup (IF o.hang # "" THEN {"hang"} ELSE {})
 
 Verdicts(o) ==
